@@ -33,6 +33,52 @@ BUILTIN_NAMES = {'len', 'min', 'max', 'sum', 'sorted', 'abs', 'int', 'str', 'set
                  'zip', 'enumerate', 'frozenset', 'open', 'repr', 'iter', 'any', 'all', 'setattr'}
 
 
+_cheap_cache = {}
+
+
+def is_cheap(c):
+    "linear, pow10-free constraint?  (feasibility pruning uses only these: an over-approximation)"
+    k = c.get_id()
+    r = _cheap_cache.get(k)
+    if r is not None:
+        return r
+    r = True
+    todo = [c]
+    seen = set()
+    n = 0
+    while todo and r:
+        t = todo.pop()
+        i = t.get_id()
+        if i in seen:
+            continue
+        seen.add(i)
+        n += 1
+        if n > 4000:
+            r = False
+            break
+        if z3.is_quantifier(t):
+            r = False
+            break
+        if z3.is_app(t):
+            d = t.decl()
+            kind = d.kind()
+            if kind == z3.Z3_OP_UNINTERPRETED and t.num_args() > 0 and d.name() == 'pow10':
+                r = False
+                break
+            if kind == z3.Z3_OP_MUL:
+                nonconst = [a for a in t.children() if not z3.is_int_value(a) and not z3.is_rational_value(a)]
+                if len(nonconst) > 1:
+                    r = False
+                    break
+            if kind in (z3.Z3_OP_IDIV, z3.Z3_OP_MOD, z3.Z3_OP_DIV, z3.Z3_OP_REM):
+                if not z3.is_int_value(t.arg(1)):
+                    r = False
+                    break
+            todo.extend(t.children())
+    _cheap_cache[k] = r
+    return r
+
+
 class Frame:
     def __init__(self, fid, func, parent_fid, owner, locals_set, module):
         self.fid = fid
@@ -135,14 +181,15 @@ class Exec:
         st.envs[fid] = {}
         return self.frames[fid]
 
-    def sat(self, st, extra=None, timeout=2000):
+    def sat(self, st, extra=None, timeout=250):
         "is the path condition (with extra) satisfiable?  unknown counts as yes"
         if not self.prune:
             return True
         s = z3.Solver()
         s.set('timeout', timeout)
         for c in st.pc:
-            s.add(c)
+            if is_cheap(c):
+                s.add(c)
         if extra is not None:
             s.add(extra)
         self.solver_checks += 1
